@@ -115,6 +115,122 @@ pub fn tokenize(dict: &JapaneseDictionary, text: &str) -> Result<Vec<Tok>, Strin
     }
 }
 
+
+// ------------------------------------------------------------------------------------------------ field subsets / modes
+/// (name, InfoSubset bits) the pipeline stream is repeated under.  What a numeral is joined into must not depend on
+/// which word-info fields the caller asked for (sudachipy `fields=...`, pre-tokenizer projections, CLI).
+pub const SUBSETS: [(&str, u32); 14] = [
+    ("normalized_form", 1 << 3),
+    ("normalized_form+reading_form", (1 << 3) | (1 << 5)),
+    ("normalized_form+pos_id", (1 << 3) | (1 << 2)),
+    ("normalized_form+surface", (1 << 3) | 1),
+    ("normalized_form+dic_form", (1 << 3) | (1 << 4)),
+    ("normalized_form+splits+synonyms", (1 << 3) | (1 << 6) | (1 << 7) | (1 << 9)),
+    ("all_but_pos_id", 0x3ff & !(1 << 2)),
+    ("all_but_head_word_length", 0x3ff & !(1 << 1)),
+    ("surface", 1),
+    ("pos_id", 1 << 2),
+    ("reading_form", 1 << 5),
+    ("dic_form", 1 << 4),
+    ("empty", 0),
+    ("surface+pos_id", 1 | (1 << 2)),
+];
+
+pub struct SubTok {
+    pub begin: usize,
+    pub end: usize,
+    pub surface: String,
+    /// Some(..) iff NORMALIZED_FORM was requested (only then the accessor is meaningful)
+    pub norm: Option<String>,
+}
+
+/// analysis with a StatefulTokenizer restricted to a field subset, in a given mode
+pub fn tokenize_subset(dict: &JapaneseDictionary, text: &str, mode: Mode, bits: u32) -> Result<Vec<SubTok>, String> {
+    use sudachi::analysis::stateful_tokenizer::StatefulTokenizer;
+    use sudachi::dic::subset::InfoSubset;
+    let r = catch(|| {
+        let mut tok = StatefulTokenizer::create(dict, false, mode);
+        tok.set_subset(InfoSubset::from_bits_truncate(bits));
+        tok.reset().push_str(text);
+        tok.do_tokenize().map_err(|e| format!("{:?}", e))?;
+        let ms = tok.into_morpheme_list().map_err(|e| format!("{:?}", e))?;
+        let want_norm = bits & (1 << 3) != 0;
+        let mut v = vec![];
+        for m in ms.iter() {
+            v.push(SubTok {
+                begin: m.begin(),
+                end: m.end(),
+                surface: m.surface().to_string(),
+                norm: if want_norm { Some(m.normalized_form().to_string()) } else { None },
+            });
+        }
+        Ok::<_, String>(v)
+    });
+    match r {
+        Ok(Ok(v)) => Ok(v),
+        Ok(Err(e)) => Err(format!("Err({})", e)),
+        Err(p) => Err(format!("Panic({})", p)),
+    }
+}
+
+fn mode_name(m: Mode) -> &'static str {
+    match m {
+        Mode::A => "A",
+        Mode::B => "B",
+        Mode::C => "C",
+    }
+}
+
+pub const KNOWN_FIELDS_CLASS: &str = "c15_boundaries_depend_on_fields_without_normalized_form";
+
+fn numeral_alphabet(c: char) -> bool {
+    c.is_ascii_digit() || c == ',' || c == '.' || KANJI_DIGITS.contains(&c) || FULLWIDTH_DIGITS.contains(&c) || "十百千万億兆".contains(c)
+}
+
+/// the analysis of `text` restricted to a field subset must give the boundaries of the analysis with all fields in
+/// the same mode, and the same normalised forms whenever NORMALIZED_FORM was requested; returns the first discrepancy
+/// and the known-finding class it belongs to ("" = none).
+/// Known class (KNOWN_FINDINGS.txt): NORMALIZED_FORM was NOT requested, both analyses tile the text, and every
+/// boundary on which they differ lies strictly inside a run of numeral characters -- i.e. only the joining of
+/// numerals differs.  Anything else (a subset with NORMALIZED_FORM, text lost, other tokens affected) is a violation.
+pub fn subset_discrepancy(dict: &JapaneseDictionary, text: &str, mode: Mode, sub: (&str, u32)) -> Option<(String, &'static str)> {
+    let full = match tokenize_subset(dict, text, mode, 0x3ff) {
+        Ok(v) => v,
+        Err(e) => return Some((format!("analysis with all fields (mode {}) failed: {}", mode_name(mode), e), "")),
+    };
+    let part = match tokenize_subset(dict, text, mode, sub.1) {
+        Ok(v) => v,
+        Err(e) => return Some((format!("analysis with fields {{{}}} (mode {}) failed: {}", sub.0, mode_name(mode), e), "")),
+    };
+    let show = |v: &Vec<SubTok>| v.iter().map(|t| match &t.norm { Some(n) => format!("{}/{}", t.surface, n), None => t.surface.clone() }).collect::<Vec<_>>().join(" | ");
+    let b1: Vec<(usize, usize)> = full.iter().map(|t| (t.begin, t.end)).collect();
+    let b2: Vec<(usize, usize)> = part.iter().map(|t| (t.begin, t.end)).collect();
+    if b1 != b2 {
+        let tiles = |v: &Vec<SubTok>| v.iter().map(|t| t.surface.as_str()).collect::<String>() == text && v.windows(2).all(|w| w[0].end == w[1].begin);
+        let ends1: std::collections::BTreeSet<usize> = b1.iter().map(|x| x.1).collect();
+        let ends2: std::collections::BTreeSet<usize> = b2.iter().map(|x| x.1).collect();
+        let inside_numeral = |b: usize| {
+            text.is_char_boundary(b)
+                && text[..b].chars().last().map(numeral_alphabet).unwrap_or(false)
+                && text[b..].chars().next().map(numeral_alphabet).unwrap_or(false)
+        };
+        let known = sub.1 & (1 << 3) == 0 && tiles(&full) && tiles(&part) && ends1.symmetric_difference(&ends2).all(|b| inside_numeral(*b));
+        return Some((
+            format!("mode {}: with fields {{{}}} the tokens are [{}], with all fields [{}]", mode_name(mode), sub.0, show(&part), show(&full)),
+            if known { KNOWN_FIELDS_CLASS } else { "" },
+        ));
+    }
+    for (a, b) in full.iter().zip(part.iter()) {
+        if b.norm.is_some() && a.norm != b.norm {
+            return Some((format!("mode {}: with fields {{{}}} token {:?} has normalised form {:?}, with all fields {:?}", mode_name(mode), sub.0, b.surface, b.norm, a.norm), ""));
+        }
+        if a.surface != b.surface {
+            return Some((format!("mode {}: with fields {{{}}} surface {:?} vs {:?}", mode_name(mode), sub.0, b.surface, a.surface), ""));
+        }
+    }
+    None
+}
+
 // ------------------------------------------------------------------------------------------------ generators
 #[derive(Clone, Copy, PartialEq)]
 enum Style {
@@ -762,6 +878,49 @@ fn pipeline_case(sink: &mut Sink, dict: &JapaneseDictionary, pre: &str, num: &st
     }
 }
 
+
+/// the pipeline case repeated with a restricted field subset and a mode: same boundaries as with all fields, same
+/// normalised forms when they were requested, and -- for a well-formed numeral with NORMALIZED_FORM requested -- one token
+/// whose normalised form is the expected rendering (checked directly, not only relative to the all-fields run)
+fn subset_case(sink: &mut Sink, dict: &JapaneseDictionary, pre: &str, num: &str, post: &str, expected: Option<&str>, sub: (&str, u32), mode: Mode, tag: &str, verbose: bool) {
+    let text = format!("{}{}{}", pre, num, post);
+    let d = json!({"kind": "subset", "pre": pre, "num": num, "post": post, "expected": expected, "subset": sub.0, "bits": sub.1, "mode": mode_name(mode), "tag": tag});
+    sink.tag(&format!("fields:{}", sub.0));
+    sink.tag(&format!("fields_mode:{}", mode_name(mode)));
+    let id = sink.case_rust_only(d, sub.1 != 0x3ff);
+    if verbose {
+        for bits in [0x3ff, sub.1] {
+            match tokenize_subset(dict, &text, mode, bits) {
+                Ok(v) => println!("fields {:#x} mode {}: {}", bits, mode_name(mode), v.iter().map(|t| format!("{}..{} {:?} norm={:?}", t.begin, t.end, t.surface, t.norm)).collect::<Vec<_>>().join(" | ")),
+                Err(e) => println!("fields {:#x} mode {}: {}", bits, mode_name(mode), e),
+            }
+        }
+    }
+    if let Some((why, class)) = subset_discrepancy(dict, &text, mode, sub) {
+        sink.fail(id, &format!("{:?}: {}", text, why), class);
+        return;
+    }
+    if let (Some(x), true) = (expected, sub.1 & (1 << 3) != 0) {
+        if let Ok(toks) = tokenize_subset(dict, &text, mode, sub.1) {
+            let (b, e) = (pre.len(), pre.len() + num.len());
+            let inside: Vec<&SubTok> = toks.iter().filter(|t| t.begin >= b && t.end <= e).collect();
+            if inside.len() != 1 || inside[0].begin != b || inside[0].end != e {
+                sink.fail(id, &format!("{:?} with fields {{{}}} mode {}: well-formed numeral {:?} (value {}) was not joined into one token: {:?}", text, sub.0, mode_name(mode), num, x, inside.iter().map(|t| t.surface.clone()).collect::<Vec<_>>()), "");
+            } else if inside[0].norm.as_deref() != Some(x) {
+                sink.fail(id, &format!("{:?} with fields {{{}}} mode {}: numeral {:?} normalised to {:?}, decimal rendering of its value is {:?}", text, sub.0, mode_name(mode), num, inside[0].norm, x), "");
+            }
+        }
+    }
+}
+
+fn parse_mode(s: &str) -> Mode {
+    match s {
+        "A" => Mode::A,
+        "B" => Mode::B,
+        _ => Mode::C,
+    }
+}
+
 fn fullwidth_some(s: &str, rng: &mut Rng) -> String {
     s.chars().map(|c| if c.is_ascii_digit() && rng.chance(1, 2) { FULLWIDTH_DIGITS[c.to_digit(10).unwrap() as usize] } else { c }).collect()
 }
@@ -787,11 +946,19 @@ pub fn numeric_dict(work: &Path) -> JapaneseDictionary {
 
 pub fn run(args: &Args) {
     let mut sink = Sink::new("C15", &args.out, &["Model.Numeric"], args.seed, &args.tier);
-    sink.rule("(a) numeral parser via verif_parse_numeral vs Coq model: numerals generated FROM A VALUE (plain Arabic/kanji/mixed digits up to 150 digits, comma groups, fractions with trailing zeros, unit notation 十..兆 below 10^16 with optional/positional coefficients, fraction x unit, long digit string x large unit) with the expected rendering; near-miss malformed strings (bad comma groups, dangling/double points, swapped or repeated units) with the required error state; random strings over the numeral alphabet checked against an exact fixed-point reference ('never a wrong value'); (b) the same numerals embedded in text and analysed with a dictionary tagging digits/units as numerals and JoinNumericPlugin: one token, normalised form = rendering; malformed: pieces only.  non-trivial = more than one character (parser) / at least one merge (pipeline)");
+    sink.rule("(a) numeral parser via verif_parse_numeral vs Coq model: numerals generated FROM A VALUE (plain Arabic/kanji/mixed digits up to 150 digits, comma groups, fractions with trailing zeros, unit notation 十..兆 below 10^16 with optional/positional coefficients, fraction x unit, long digit string x large unit) with the expected rendering; near-miss malformed strings (bad comma groups, dangling/double points, swapped or repeated units) with the required error state; random strings over the numeral alphabet checked against an exact fixed-point reference ('never a wrong value'); (b) the same numerals embedded in text and analysed with a dictionary tagging digits/units as numerals and JoinNumericPlugin: one token, normalised form = rendering; malformed: pieces only; (c) the pipeline cases repeated with a StatefulTokenizer restricted to 14 word-info field subsets (with / without NORMALIZED_FORM, POS_ID, SURFACE, ...) in modes A/B/C: same boundaries as with all fields, same normalised forms when requested, well-formed numeral = one token with the expected rendering.  non-trivial = more than one character (parser) / at least one merge (pipeline)");
     if let Some(p) = &args.replay {
         let v: Value = serde_json::from_str(&std::fs::read_to_string(p).unwrap()).unwrap();
         let c = &v["case"];
         let want = c["want_err"].as_u64().map(|x| x as u8);
+        if c["kind"] == "subset" {
+            let dict = numeric_dict(&args.work);
+            let name = c["subset"].as_str().unwrap().to_string();
+            subset_case(&mut sink, &dict, c["pre"].as_str().unwrap(), c["num"].as_str().unwrap(), c["post"].as_str().unwrap(), c["expected"].as_str(),
+                        (name.as_str(), c["bits"].as_u64().unwrap() as u32), parse_mode(c["mode"].as_str().unwrap_or("C")), "replay", true);
+            sink.finish();
+            return;
+        }
         if c["kind"] == "parse" {
             parse_case(&mut sink, c["input"].as_str().unwrap(), c["expected"].as_str(), want, "replay", true);
         } else {
@@ -826,6 +993,9 @@ pub fn run(args: &Args) {
     let posts = ["", "に", "円", "京都", "カップ"];
     for (t, e) in DIRECTED_OK.iter() {
         pipeline_case(&mut sink, &dict, "京都", t, "円", Some(e), false, "directed_ok", false);
+        for (k, sub) in SUBSETS.iter().enumerate() {
+            subset_case(&mut sink, &dict, "東京都に", t, "円", Some(e), *sub, [Mode::C, Mode::A, Mode::B][k % 3], "directed_ok", false);
+        }
     }
     for (t, _) in DIRECTED_BAD.iter() {
         pipeline_case(&mut sink, &dict, "", t, "円", None, true, "directed_bad", false);
@@ -846,6 +1016,9 @@ pub fn run(args: &Args) {
         let pre = *rng.pick(&pres);
         let post = *rng.pick(&posts);
         pipeline_case(&mut sink, &dict, pre, &text, post, Some(&n.expected), false, n.tag, false);
+        let sub = *rng.pick(&SUBSETS[..]);
+        let mode = *rng.pick(&[Mode::A, Mode::B, Mode::C][..]);
+        subset_case(&mut sink, &dict, pre, &text, post, Some(&n.expected), sub, mode, n.tag, false);
     }
     for _ in 0..args.n(250, 4000) {
         let m = gen_malformed(&mut rng);
@@ -855,6 +1028,9 @@ pub fn run(args: &Args) {
         let pre = *rng.pick(&pres);
         let post = *rng.pick(&posts);
         pipeline_case(&mut sink, &dict, pre, &m.text, post, None, m.want_err.is_some(), m.tag, false);
+        let sub = *rng.pick(&SUBSETS[..]);
+        let mode = *rng.pick(&[Mode::A, Mode::B, Mode::C][..]);
+        subset_case(&mut sink, &dict, pre, &m.text, post, None, sub, mode, m.tag, false);
     }
     sink.finish();
 }
